@@ -96,6 +96,28 @@ static unsigned char* parse_hex(const char* s, size_t* n) {
   for (size_t i = 0; i < *n; i++) b[i] = (unsigned char)(hexv(s[2 * i]) * 16 + hexv(s[2 * i + 1]));
   return b;
 }
+/* inputs of the decoders are presented at a rotating alignment (start address = 16k + 0..15): the block is n + a bytes,
+   the input occupies its LAST n bytes, so a one-byte over-read still leaves the block (ASan) while the same bytes are
+   seen at every offset modulo 8 / 16 over a run (an alignment-dependent fast path shows as a disagreement) */
+static __thread unsigned al_rot;
+static __thread unsigned char* al_base;
+static __thread unsigned char* al_ptr;
+static unsigned char* aligned_copy(const unsigned char* src, size_t n) {
+  unsigned a = (al_rot++ * 7u + 3u) & 15u;
+  unsigned char* base = malloc(n + a ? n + a : 1);
+  memset(base, 0xD7, a);
+  if (n) memcpy(base + a, src, n);
+  al_base = base; al_ptr = base + a;
+  return al_ptr;
+}
+static unsigned char* parse_hex_al(const char* s, size_t* n) {
+  unsigned char* t = parse_hex(s, n);
+  unsigned char* r = aligned_copy(t, *n);
+  free(t);
+  return r;
+}
+static void free_al(unsigned char* p) { if (p == al_ptr) { free(al_base); al_ptr = al_base = NULL; } else free(p); }
+
 static void ob_hex(const unsigned char* d, size_t n) {
   if (n == 0) { ob_printf("-"); return; }
   for (size_t i = 0; i < n; i++) ob_printf("%02x", d[i]);
@@ -165,7 +187,7 @@ static const char* status_s(enum cbor_decoder_status s) {
 /* ------------------------------------------------------------------ stream: dec1 */
 static void do_dec1(char* line) {
   size_t n;
-  unsigned char* buf = parse_hex(line, &n);
+  unsigned char* buf = parse_hex_al(line, &n);
   a_reset();
   size_t mark = ob_len;
   (void)mark;
@@ -178,7 +200,7 @@ static void do_dec1(char* line) {
   ob_printf("%s %zu %zu %s", status_s(r.status), r.read, r.required, rec_count ? ev : "-");
   if (a_requests) ob_printf(" ALLOCS=%lu", a_requests);
   free(ev);
-  free(buf);
+  free_al(buf);
 }
 
 /* ------------------------------------------------------------------ stream: enc */
@@ -367,13 +389,13 @@ static const char* err_s(cbor_error_code c) {
 }
 static void do_load(char* line) {
   size_t n;
-  unsigned char* buf = parse_hex(line, &n);
+  unsigned char* buf = parse_hex_al(line, &n);
   struct cbor_load_result res;
   memset(&res, 0xAA, sizeof res);
   a_reset(); a_live = 0;
   cbor_item_t* it = cbor_load(buf, n, &res);
   /* the input may be freed or overwritten at once */
-  memset(buf, 0xEE, n); free(buf);
+  memset(buf, 0xEE, n); free_al(buf);
   const size_t unw = (size_t)0xAAAAAAAAAAAAAAAAull;
   if (it) {
     ob_printf("ok %zu ", res.read);
@@ -397,12 +419,12 @@ static void do_load(char* line) {
 #include <pthread.h>
 static void load_post_body(char* line) {
   size_t n;
-  unsigned char* buf = parse_hex(line, &n);
+  unsigned char* buf = parse_hex_al(line, &n);
   struct cbor_load_result res;
   memset(&res, 0xAA, sizeof res);
   a_reset(); a_live = 0;
   cbor_item_t* it = cbor_load(buf, n, &res);
-  memset(buf, 0xEE, n); free(buf);
+  memset(buf, 0xEE, n); free_al(buf);
   if (it) {
     ob_printf("ok %zu ", res.read);
     dump_rc_ok = true; dump_item(it);
@@ -710,10 +732,10 @@ static void do_seq(char* line) {
   while (off < n && k < 64) {
     /* present exactly the remainder in an exactly-sized block */
     size_t rem = n - off;
-    unsigned char* buf = malloc(rem); memcpy(buf, all + off, rem);
+    unsigned char* buf = aligned_copy(all + off, rem);
     struct cbor_load_result res; memset(&res, 0xAA, sizeof res);
     cbor_item_t* it = cbor_load(buf, rem, &res);
-    free(buf);
+    free_al(buf);
     if (k) ob_printf(" ");
     if (!it) { ob_printf("err:%s:%zu", err_s(res.error.code), res.error.position); break; }
     ob_printf("ok:%zu:", res.read); dump_rc_ok = true; dump_item(it);
@@ -954,12 +976,18 @@ static void do_frag(char* line) {
     for (;;) {
       if (fuel-- == 0) { fault = true; break; }
       if (buffered < wanted) break;
-      /* present exactly the buffered bytes in an exactly-sized block */
-      unsigned char* view = malloc(buffered ? buffered : 1);
+      /* present exactly the buffered bytes: in an exactly-sized block, or (HX_FIXEDRX) at the start of one receive
+         buffer that every call of every case reuses, as a client with a fixed buffer does */
+      static unsigned char fixed_rx[1 << 16];
+      static int fixed_mode = -1;
+      if (fixed_mode < 0) fixed_mode = getenv("HX_FIXEDRX") != NULL;
+      bool use_fixed = fixed_mode && buffered <= sizeof fixed_rx;
+      unsigned char* view = use_fixed ? fixed_rx : malloc(buffered ? buffered : 1);
       if (buffered) memcpy(view, buffer, buffered);
+      if (use_fixed) memset(view + buffered, 0xD7, sizeof fixed_rx - buffered < 32 ? sizeof fixed_rx - buffered : 32);
       rec_base = view;
       struct cbor_decoder_result r = cbor_stream_decode(view, buffered, &rec_callbacks, NULL);
-      free(view);
+      if (!use_fixed) free(view);
       if (r.status == CBOR_DECODER_FINISHED) {
         if (r.read == 0 || r.read > buffered) { fault = true; break; }
         memmove(buffer, buffer + r.read, buffered - r.read);
